@@ -1,6 +1,6 @@
 ENTRY = {
     "level": "proof",
-    "families": [fam("C31", 250, 10000)],
+    "families": [fam("C31", 250, 2500)],
     "gen_items": [],
     "rule": "cases: 45% statements of the shared SQL generator (all strata: filter case join agg distinct setop cte values gsets subquery sort_limit) over "
             "generated catalogs; 20% join queries of the C32 generator (2..7 relations, chains/stars/cycles/cliques, composite keys); 10% the C03 "
